@@ -189,6 +189,13 @@ class DevConn:
             return
         self.buf += data
         if dev.version == 3:
+            lead = self.buf.find(b"\x83\x70")
+            stray = self.buf if lead < 0 else self.buf[:lead]
+            if stray and not (lead < 0 and stray.endswith(b"\x83")):
+                # bytes that are not part of any V3 packet (e.g. a plain V2 packet written to a V3 device)
+                dev.events.append((self.now(), "pkt", self.id, "junk-preauth" if self.skey is None else "junk", bytes(stray)))
+                if self.skey is None:
+                    dev.preauth_junk.append((self.now(), self.id, bytes(stray)))
             pkts, self.buf = v3.split_stream(self.buf)
             for p in pkts:
                 self.rx_packets += 1
@@ -439,7 +446,7 @@ class SimHost:
     (delay, source_port, bytes) sent for the FIRST acceptable probe only (``answer_every`` = True: for every probe).
     """
 
-    def __init__(self, net, ip: str, port: int = 6445, replies=None, answer_every: bool = False, names=()) -> None:
+    def __init__(self, net, ip: str, port: int = 6445, replies=None, answer_every: bool = False, names=(), lose_first: int = 0) -> None:
         from .ref import discovery
         self._disc = discovery
         self.net = net
@@ -448,6 +455,7 @@ class SimHost:
         self.replies = list(replies or [])
         self.answer_every = answer_every
         self.names = set(names)      # host names that resolve to this host
+        self.lose_first = lose_first  # the first k acceptable probes never reach the host (UDP loss)
         self.probes_ok = 0
         self.probes_rejected = []
         self.answered = False
@@ -471,6 +479,8 @@ class SimHost:
             self.probes_rejected.append(why)
             return
         self.probes_ok += 1
+        if self.probes_ok <= self.lose_first:
+            return
         if self.answered and not self.answer_every:
             return
         self.answered = True
